@@ -217,7 +217,44 @@ def c09(tier):
     return out
 
 
-FAMILIES = dict(C01=c01, C02=c02, C04=c04, C05=c05, C06=c06, C09=c09, C11=c11, C14=c14)
+def c10(tier):
+    out = []
+    V = {"": [1], "control": [1], "control+": [1]}
+    def consts():
+        return [(("x", 0), ("unknown", "g_x", 2, 1)), (("u", 0), ("unknown", "g_u", 1, 1)), ((("v", ""), 0), ("unknown", "g_v", 1, 1)),
+                ((("v", "control"), 0), ("unknown", "g_vc", 1, 1)), ((("v", "control+"), 0), ("unknown", "g_vcp", 1, 1))]
+    def arrays(N, plus):
+        return [(("x", 0), ("unknown", "a_x", 2, N + 1 if plus else N)), (("u", 0), ("unknown", "a_u", 1, N)),
+                ((("v", "control"), 0), ("unknown", "a_vc", 1, N)), ((("v", "control+"), 0), ("unknown", "a_vcp", 1, N + 1))]
+    def texpr_states():
+        return [(("x", 0), E("gx", 2, ("t",))), ((("v", "control+"), 0), E("gvcp", 1, ("t",)))]
+    def texpr_controls():
+        return [(("u", 0), E("gu", 1, ("t",))), ((("v", "control"), 0), E("gvc", 1, ("t",)))]
+    base = dict(variables=V, ode=E("f", None, ("x", "u", "t", "v", "vc", "vcp")))
+    for meth in ("MS", "SS", "DC"):
+        for N, M in ((2, 1), (3, 2)):
+            out.append(("%s-N%d-M%d-const" % (meth, N, M), _mk(method=meth, N=N, M=M, degree=2, initial=consts(), **base)))
+            out.append(("%s-N%d-M%d-none" % (meth, N, M), _mk(method=meth, N=N, M=M, degree=2, initial=[], **base)))
+            out.append(("%s-N%d-M%d-texpr-states" % (meth, N, M), _mk(method=meth, N=N, M=M, degree=2, T=("free", 1.5), t0=("free", 0.25), initial=texpr_states(), **base)))
+            out.append(("%s-N%d-M%d-texpr-controls" % (meth, N, M), _mk(method=meth, N=N, M=M, degree=2, T=("free", 1.5), initial=texpr_controls(), **base)))
+            out.append(("%s-N%d-M%d-lastwins" % (meth, N, M), _mk(method=meth, N=N, M=M, degree=2,
+                                                                  initial=consts() + [(("x", 0), ("unknown", "g_x2", 2, 1)), (("u", 0), 3.0)], **base)))
+            if meth != "DC":
+                out.append(("%s-N%d-M%d-arrays" % (meth, N, M), _mk(method=meth, N=N, M=M, initial=arrays(N, True), **base)))
+                out.append(("%s-N%d-M%d-arraysN" % (meth, N, M), _mk(method=meth, N=N, M=M, initial=arrays(N, False), **base)))
+            else:
+                out.append(("%s-N%d-M%d-arrays" % (meth, N, M), _mk(method=meth, N=N, M=M, degree=2, initial=arrays(N, True), **base)))
+                out.append(("%s-N%d-M%d-arraysN" % (meth, N, M), _mk(method=meth, N=N, M=M, degree=2, initial=arrays(N, False), **base)))
+        out.append(("%s-scaled-const" % meth, _mk(method=meth, N=2, M=1, degree=2, scales={"x": "unknown", "u": "unknown", "v": "unknown", "vcontrol": "unknown"}, initial=consts(), **base)))
+        out.append(("%s-Tguess-texpr" % meth, _mk(method=meth, N=3, M=1, degree=2, T=("free", 1.0), t0=("free", 0.0),
+                                                  initial=[("T", ("unknown", "g_T", 1, 1)), ("t0", ("unknown", "g_t0", 1, 1))] + texpr_states(), **base)))
+        out.append(("%s-Tguess-last-texpr" % meth, _mk(method=meth, N=3, M=1, degree=2, T=("free", 1.0), t0=("free", 0.0),
+                                                       initial=texpr_states() + [("t0", ("unknown", "g_t0", 1, 1)), ("T", ("unknown", "g_T", 1, 1))], **base)))
+        out.append(("%s-geometric-texpr" % meth, _mk(method=meth, N=3, M=2, degree=2, T=("free", 2.0), grid=dict(kind="geometric", growth=2.0, local=True), initial=texpr_states(), **base)))
+    return out
+
+
+FAMILIES = dict(C10=c10, C01=c01, C02=c02, C04=c04, C05=c05, C06=c06, C09=c09, C11=c11, C14=c14)
 
 
 def find(prop, label, tier="thorough"):
